@@ -32,11 +32,13 @@ structure Ang.IsReal (a : Ang R) : Prop where
   s : star a.s = a.s
   unit : a.c * a.c + a.s * a.s = 1
 
+omit [StarRing R] in
 theorem cis_add {I : R} (hI : I * I = -1) (a b : Ang R) :
     (a.add b).cis I = a.cis I * b.cis I := by
   simp only [Ang.add, Ang.cis]
   linear_combination (-(a.s * b.s)) * hI
 
+omit [StarRing R] in
 theorem bs_factorisation' (I : R) (conv : Conv) (c s ptl pbl ptr pbr : R) :
     bs I conv c s ptl pbl ptr pbr = diag2 ptr pbr * bsCore I conv c s * diag2 ptl pbl := by
   ext i j
@@ -90,7 +92,7 @@ theorem wpCore_isUnitary {I : R} (hI : ImagUnit I) {d y : Ang R} (hd : d.IsReal)
       | ring1
       | linear_combination hd' + d.s * d.s * hy' - d.s * d.s * (y.c * y.c + y.s * y.s) * h1
 
-theorem pr_isUnitary {d : Ang R} (hd : d.IsReal) : IsUnitary (pr d) := by
+theorem pr_isUnitary' {d : Ang R} (hd : d.IsReal) : IsUnitary (pr d) := by
   have hd' := hd.unit
   constructor <;> ext i j <;> fin_cases i <;> fin_cases j <;>
     simp [pr, Matrix.mul_apply, Fin.sum_univ_two, hd.c, hd.s] <;>
@@ -98,7 +100,7 @@ theorem pr_isUnitary {d : Ang R} (hd : d.IsReal) : IsUnitary (pr d) := by
       | ring1
       | linear_combination hd'
 
-theorem ps_isUnitary {p : R} (hp : p * star p = 1) : IsUnitary (ps p) := by
+theorem ps_isUnitary' {p : R} (hp : p * star p = 1) : IsUnitary (ps p) := by
   have hp' : star p * p = 1 := by rw [mul_comm]; exact hp
   constructor <;> ext i j <;> fin_cases i <;> fin_cases j <;> simp [ps, Matrix.mul_apply, hp, hp']
 end PM.C14
